@@ -72,6 +72,11 @@ func c05Config(tp *simkit.Tape) c05Cfg {
 				k += "+partial" // one answer that both asks for a delay and names the undelivered subset
 			}
 		}
+		if c.TimeoutMs > 0 && c.DeadlineMs == 0 && k != "ok" && k != "hang" && tp.Chance(1, 5) {
+			// the backend's own verdict arrives only after the per-attempt timeout has run out (a client that finishes
+			// what it can, then reports): the verdict means what it says all the same
+			k = "late:" + k
+		}
 		c.Script = append(c.Script, k)
 	}
 	c.Shape = []string{"plain", "wrapped", "joined"}[tp.Weighted(2, 1, 1)]
@@ -104,6 +109,7 @@ func runC05(r *simkit.Run) {
 	ad := adapterByName(cfg.Signal)
 	be := newBackend(ad, func() int64 { return time.Now().UnixNano() })
 	be.evNow = func() int { return r.Events }
+	be.deaf = func(n int) bool { return n >= 1 && n <= len(cfg.Script) && strings.HasPrefix(cfg.Script[n-1], "late:") }
 	disk := NewDisk()
 	inc := disk.NewIncarnation(1)
 
@@ -220,6 +226,8 @@ func runC05(r *simkit.Run) {
 		if attempt <= len(cfg.Script) {
 			kind = cfg.Script[attempt-1]
 		}
+		late := strings.HasPrefix(kind, "late:")
+		kind = strings.TrimPrefix(kind, "late:")
 		var outcome error
 		switch {
 		case kind == "ok":
@@ -308,6 +316,15 @@ func runC05(r *simkit.Run) {
 			}
 			outcome = errTransient
 		} else {
+			if late {
+				r.Count("fault.verdict_after_attempt_timeout")
+				end := at.Add(ms(cfg.TimeoutMs))
+				r.Fire("advance:until-attempt-times-out", func() {
+					if d := time.Until(end); d > 0 {
+						time.Sleep(d)
+					}
+				})
+			}
 			r.Fire(fmt.Sprintf("answer:%d:%s", attempt, kind), func() { be.answer(id, outcome) })
 			lastEnd = time.Now()
 		}
@@ -519,11 +536,11 @@ func runC05(r *simkit.Run) {
 
 // throttleOf returns the delay the backend asked for in its answer to attempt n (1-based), 0 if none.
 func throttleOf(script []string, n int) time.Duration {
-	if n < 1 || n > len(script) || !strings.HasPrefix(script[n-1], "throttle:") {
+	if n < 1 || n > len(script) || !strings.HasPrefix(strings.TrimPrefix(script[n-1], "late:"), "throttle:") {
 		return 0
 	}
 	var v int
-	fmt.Sscanf(script[n-1], "throttle:%d", &v)
+	fmt.Sscanf(strings.TrimPrefix(script[n-1], "late:"), "throttle:%d", &v)
 	return ms(v)
 }
 
